@@ -60,3 +60,40 @@ package config
 //@   vars tp int64, ts int64, t int64, ttlTxn int64, ttlVer int64
 //@   requires tp <= ts && ttlVer >= ttlTxn && t <= tp + ttlTxn
 //@   ensures[version-still-there] t <= ts + ttlVer
+
+// ---------------------------------------------------------------------------------------------------------------------
+// C13: the endpoint policy tree. The URL trie (toolkit-core/urltree) is TRUSTED here through an abstract model:
+// pdecl is the set of declared patterns, pval[p] the value stored for pattern p, and best(D, u) the declared pattern the
+// trie picks for URL u among the set D ("" when none): literal over path parameter over wildcard - that choice itself is
+// the trie's business and is not proved.
+//@ ghost var pdecl gmap[string]bool
+//@ ghost var pval gmap[string]*map[urltree.Method]EndpointPolicy
+//@ ghost func best(d gmap[string]bool, u string) string
+//@ axiom[best-is-declared] forall(d, "gmap[string]bool", forall(u, string, best(d, u) != "" ==> d[best(d, u)]))
+//@ axiom[declared-finds-itself] forall(d, "gmap[string]bool", forall(u, string, d[u] && u != "" ==> best(d, u) == u))
+//@ extern URLTree.Lookup
+//@   modifies nothing
+//@   ensures[none] best(pdecl, url) == "" ==> result.Value == nil
+//@   ensures[the-matched-node] best(pdecl, url) != "" ==> result.Value == pval[best(pdecl, url)]
+//@ extern URLTree.InsertDeclaredURL
+//@   modifies pdecl, pval
+//@   ensures[stored] result == nil ==> forall(p, string, pdecl[p] <==> (old(pdecl)[p] || p == url)) && pval[url] == value && forall(p, string, p != url ==> pval[p] == old(pval)[p])
+//@   ensures[unchanged-on-error] result != nil ==> pdecl == old(pdecl) && pval == old(pval)
+//@ extern urltree.NewEndpointTree
+//@   modifies pdecl, pval
+//@   allocates EndpointTree
+//@   ensures result != nil && forall(p, string, !pdecl[p])
+
+// Data invariant of the policy tree (from the statement): the policies stored on a pattern are those DECLARED for that
+// pattern, and no two patterns share a policy map.
+//@ ghost func polInv() bool = forall(p, string, pdecl[p] ==> p != "" && pval[p] != nil && *pval[p] != nil && forall(m, urltree.Method, in(m, *pval[p]) ==> (*pval[p])[m].URL == p)) && forall(p, string, forall(q, string, pdecl[p] && pdecl[q] && p != q ==> *pval[p] != *pval[q]))
+
+//@ extern checkForDuplicates
+//@   modifies nothing
+
+//@ func BuildEndpointPolicyTree
+//@   prop C13
+//@   requires forall(j, 0, len(endpoints), endpoints[j].URL != "")
+//@   modifies pdecl, pval, heap
+//@   loop 1 invariant[policies-on-their-own-pattern] polInv()
+//@   ensures[policies-on-their-own-pattern] result1 == nil ==> polInv()
